@@ -6,7 +6,7 @@ ChanLog_Proofs.v (channel_log_exact, whole_session_exact, late_open_loses); prop
 tie: Gen_Log.v regenerated from the source (format strings, literals, prefixes, hot-path templates, statement order
 of read() and of Driver.open / AsyncDriver.open, call sites of transport.read) + correspondence of model/LogHandler.v,
 LogFormat.v, ChanLog.v against the real handlers / formatter / channels / drivers on the same generated record sequences,
-read sequences and whole sessions (c20_driver.py)."""
+read sequences, whole sessions and commandeered sessions (c20_driver.py), several handler instances in one process."""
 import ast
 import asyncio
 import io
@@ -75,6 +75,42 @@ Definition chk (c : sink_kind * bytes * list sess_ev * option bytes) : bool :=
   | _, _ => false
   end.
 """
+
+
+CMD_HEADER = """From Verif Require Import Bytes ChanLog Commandeer.
+Definition RA := CRead WA.
+Definition RB := CRead WB.
+Definition Tk := CTakeover.
+(* destination 0: the one A is configured with (kind k0, previous content e0); destination 1: B's own when it is another
+   one (previous content e1, never opened on the reference); the events from A.open() on; what 0 and 1 hold after both closes *)
+Definition chk (c : sink_kind * bytes * bytes * list cmd_ev * bytes * bytes) : bool :=
+  let '(k0, e0, e1, evs, o0, o1) := c in
+  let s0 := match open_sink k0 e0 with Some b => b | None => [] end in
+  let st := cmd_run (after_open (match open_sink k0 e0 with Some _ => Some 0%nat | None => None end)
+                                (fun x => if Nat.eqb x 0 then s0 else e1)) evs in
+  beq (cont st 0%nat) o0 && beq (cont st 1%nat) o1.
+"""
+
+
+def cmd_case_term(case, obs):
+    """the commandeer model is fed the session as it was observed: the reads tagged with the object they were made through,
+    the commandeering where it began; it answers with the content of A's destination and of B's own (if another one)"""
+    ka = case["sink_a"]
+    k0 = {"none": "SNone", "path": "(SFile %s)" % coq_bool(case["append_a"]), "true": "(SFile %s)" % coq_bool(case["append_a"]), "bytesio": "SBytesIO"}[ka]
+    other = case["sink_b"] if case["sink_b"] not in ("none", ka) else None
+    evs = []
+    for k, who, c, _ in obs["events"]:
+        if k == "r":
+            evs.append("R%s %s" % (who, coq_bytes(bytes.fromhex(c))))
+        elif k == "cmd-begin":
+            evs.append("Tk")
+
+    def held(dest):
+        v = obs["sinks"].get(dest) if dest else None
+        return coq_bytes(bytes.fromhex(v)) if v else "(@nil N)"
+    return "(%s, %s, %s, %s, %s, %s)" % (k0, coq_bytes(bytes.fromhex(case["existing"].get(ka, ""))),
+                                         coq_bytes(bytes.fromhex(case["existing"].get(other, ""))) if other else "(@nil N)",
+                                         "[%s]" % "; ".join(evs) if evs else "(@nil cmd_ev)", held(ka if ka != "none" else None), held(other))
 
 
 def log_case_term(case, obs, asctime):
@@ -491,6 +527,191 @@ def classify_log(case, obs):
     if case["buffered"] and case["recs"] and not obs["errors"]:
         return "c20-buffered-content"
     return "c20-log-" + "-".join(sorted(k or "?" for k in kinds))[:40]
+
+
+# ------------------------------------------------------------------------------------------------
+# suite log-multi : two or three handler instances (different files) alive in ONE process, interleaved record sequences
+# ------------------------------------------------------------------------------------------------
+def multi_subcase(case, k):
+    """what handler k alone was given: its configuration and the records routed to it before it was closed"""
+    recs, closed = [], False
+    for ev in case["events"]:
+        if ev[0] == "close" and ev[1] == k:
+            closed = True
+        elif ev[0] == "rec" and not closed and (case["route"] == "logger" or k in ev[2]):
+            recs.append(ev[1])
+    hc = case["handlers"][k]
+    return {"buffered": hc["buffered"], "append": hc["append"], "caller": hc["caller"], "existing": hc["existing"], "close": hc["close"],
+            "recs": recs, "domain": True}
+
+
+def run_multilog_impl(case, workdir):
+    """every handler is installed by enable_basic_logging (its own file, formatter and mode).  route 'logger': all of them
+    stay attached to the scrapli logger, every record goes through the logger to every handler not closed yet (the SAME
+    record object, as in real life); route 'direct': the handlers are detached and each record is handed to the handlers
+    listed with it (a fresh record object each) — handlers of different loggers / sessions in one process.
+    A 'close' event closes one handler in the middle of the others' traffic."""
+    import scrapli.logging as sl
+    paths, hs, escaped, setup_exc = [], [], [], None
+    with _Quiet() as q:
+        for k, hc in enumerate(case["handlers"]):
+            path = _tmp(workdir, "mlog%d" % k) + ".log"
+            if os.path.exists(path):
+                os.remove(path)
+            if hc["existing"] is not None:
+                with open(path, "w", encoding="utf-8") as f:
+                    f.write(hc["existing"])
+            paths.append(path)
+            try:
+                sl.enable_basic_logging(file=path, level="debug", caller_info=hc["caller"], buffer_log=hc["buffered"],
+                                        mode="append" if hc["append"] else "write")
+                hs.append([h for h in q.new_handlers() if h not in hs][0])
+            except Exception as e:  # noqa
+                setup_exc = type(e).__name__
+                break
+        if setup_exc is None:
+            if case["route"] == "direct":
+                for h in hs:
+                    q.lg.removeHandler(h)
+            open_ = [True] * len(hs)
+
+            def mk(rd):
+                rec = q.lg.makeRecord("scrapli.channel", rd["level"], rd["path"], rd["lineno"], rd["msg"], _args(rd), None,
+                                      rd["func"], dict(rd["extra"]) or None)
+                rec.created, rec.msecs = CREATED, MSECS
+                return rec
+
+            def close(k):
+                if not open_[k]:
+                    return
+                open_[k] = False
+                q.lg.removeHandler(hs[k])
+                try:
+                    if case["handlers"][k]["close"] == "shutdown":
+                        logging.shutdown([weakref.ref(hs[k])])
+                    else:
+                        hs[k].close()
+                except Exception as e:  # noqa
+                    escaped.append("close:" + type(e).__name__)
+            for ev in case["events"]:
+                if ev[0] == "close":
+                    close(ev[1])
+                    continue
+                try:
+                    if case["route"] == "logger":
+                        q.lg.handle(mk(ev[1]))
+                    else:
+                        for k in ev[2]:
+                            if open_[k]:
+                                hs[k].handle(mk(ev[1]))
+                except Exception as e:  # noqa
+                    escaped.append(type(e).__name__)
+            for k in range(len(hs)):
+                close(k)
+        for h in hs:                         # (set-up failed half way)
+            q.lg.removeHandler(h)
+            try:
+                h.close()
+            except Exception:  # noqa
+                pass
+        errors = q.errors()
+        stderr_tail = q.err.getvalue()[-400:]
+    files = []
+    for path in paths:
+        try:
+            files.append(open(path, "rb").read().decode("utf-8"))
+        except Exception as e:  # noqa
+            files.append("<unreadable: %s>" % type(e).__name__)
+    return {"files": files, "errors": errors, "escaped": escaped, "setup_exc": setup_exc, "stderr_tail": stderr_tail}
+
+
+def multi_subobs(obs, k):
+    return {"file": obs["files"][k] if k < len(obs["files"]) else "", "errors": obs["errors"], "escaped": obs["escaped"],
+            "setup_exc": obs["setup_exc"], "stderr_tail": obs["stderr_tail"]}
+
+
+def oracle_multilog(case, obs, asctime):
+    """per file, the oracle of ONE handler on the records that handler was given: what other handlers of the process
+    receive, hold or flush must not show"""
+    for k in range(len(case["handlers"])):
+        why = oracle_log(multi_subcase(case, k), multi_subobs(obs, k), asctime)
+        if why:
+            return k, why
+    return None
+
+
+def gen_multilog_case(rng, wide):
+    nh = rng.choice([2, 2, 2, 3])
+    handlers = []
+    for _ in range(nh):
+        append = rng.random() < 0.3
+        handlers.append({"buffered": rng.random() < 0.85, "append": append, "caller": rng.random() < 0.2,
+                         "existing": rng.choice([None, "", "old line\n"]) if append else rng.choice([None, None, "stale\n"]),
+                         "close": rng.choice(["close", "close", "shutdown"])})
+    route = "logger" if rng.random() < 0.35 else "direct"
+    extras = [gen_extra(rng) for _ in range(nh)]
+    if route == "logger":
+        # one record object formatted by several ScrapliFormatters: the first completes it (host = port = "" when it has no
+        # host), so the next shows ':' where the first showed '' — layout, outside the property; shared records carry both
+        extras = [ex if ("host" in ex and "port" in ex) else dict(ex, host=ex.get("host", "h"), port=ex.get("port", "22")) for ex in extras]
+    events, live = [], list(range(nh))
+    n = rng.choice([2, 3, 4, 5, 6, 8, 10])
+    while n > 0 and live:
+        n -= 1
+        if len(live) > 1 and rng.random() < 0.12:             # one handler is closed while the others go on
+            k = rng.choice(live)
+            live.remove(k)
+            events.append(["close", k])
+            continue
+        r = rng.random()
+        to = sorted(live) if r < 0.2 else sorted(rng.sample(live, 1 if r < 0.85 or len(live) < 2 else 2))
+        ex = extras[to[0]]
+        if rng.random() < 0.55:     # a run of reads for these handlers; the next event may well be for another handler
+            for _ in range(rng.choice([1, 2, 2, 3])):
+                rd = gen_record(rng, wide, ex)
+                rd["kind"], rd["msg"], rd["args"] = "lazy_read", "read: %r", [["b", gen_payload(rng).hex()]]
+                events.append(["rec", rd, to])
+        else:
+            events.append(["rec", gen_record(rng, wide, ex), to])
+    order = list(live)
+    rng.shuffle(order)
+    events += [["close", k] for k in order]
+    return {"handlers": handlers, "route": route, "events": events}
+
+
+def enum_multilog_cases(maxlen):
+    """every interleaving up to maxlen of {read, info} x {handler 0, handler 1} over two buffering handlers, closed in both orders"""
+    import itertools
+    base = {"level": 10, "path": "sync_channel.py", "func": "read", "lineno": 74}
+    shapes = []
+    for k in (0, 1):
+        ex = {"host": "h%d" % k, "port": "22"}
+        shapes.append(["rec", dict(base, extra=ex, kind="lazy_read", msg="read: %r", args=[["b", (b"r%d'" % k).hex()]]), [k]])
+        shapes.append(["rec", dict(base, extra=ex, kind="info", msg="info %d 100%%" % k, args=[], level=20), [k]])
+    hc = {"buffered": True, "append": False, "caller": False, "existing": None, "close": "close"}
+    out = []
+    for n in range(1, maxlen + 1):
+        for seq in itertools.product(range(len(shapes)), repeat=n):
+            if len(set(shapes[i][2][0] for i in seq)) < 2:
+                continue                  # one handler only: the log-seq enumeration
+            for order in ((0, 1), (1, 0)):
+                out.append({"handlers": [dict(hc), dict(hc)], "route": "direct",
+                            "events": [[shapes[i][0], dict(shapes[i][1]), list(shapes[i][2])] for i in seq] + [["close", k] for k in order]})
+    return out
+
+
+def shrink_multilog(case, workdir, asctime):
+    def fails(c):
+        return oracle_multilog(c, run_multilog_impl(c, workdir), asctime) is not None
+    cur, changed = case, True
+    while changed:
+        changed = False
+        for i in range(len(cur["events"])):
+            cand = dict(cur, events=cur["events"][:i] + cur["events"][i + 1:])
+            if fails(cand):
+                cur, changed = cand, True
+                break
+    return cur
 
 
 # ------------------------------------------------------------------------------------------------
@@ -915,6 +1136,13 @@ def run(rep):
         elif r["suite"] == "driver":
             o = c20_driver.run_driver_impl(case, rep.workdir)
             why = c20_driver.oracle_driver(case, o)
+        elif r["suite"] == "commandeer":
+            o = c20_driver.run_cmd_impl(case, rep.workdir)
+            why = c20_driver.oracle_cmd(case, o)
+        elif r["suite"] == "log-multi":
+            o = run_multilog_impl(case, rep.workdir)
+            why = oracle_multilog(case, o, asctime)
+            why = why and "file %d: %s" % why
         else:
             o = run_chan_impl(case, rep.workdir)
             why = oracle_chan(case, o)
@@ -959,12 +1187,67 @@ def run(rep):
             why = oracle_log(case, obs, asctime)
             if why:
                 fails.append((len(cases) - 1, why))
+    # 3a'. log-multi : several handler instances in one process; every file goes to the model and the oracle as the file of
+    # ONE handler given the records routed to it
+    n_multi = 900 if thorough else 70
+    mcases, mfails, multi_ix, mranges = [], [], set(), []
+    mdist = {"cases": 0, "enumerated_interleavings": 0, "handlers": {}, "routes": {}, "files": 0, "buffering_handlers": 0, "mid_session_closes": 0,
+             "records": 0, "handovers_with_pending_reads": 0}
+    mtodo = enum_multilog_cases(4 if thorough else 3)
+    mdist["enumerated_interleavings"] = len(mtodo)
+    mtodo += [gen_multilog_case(rng, wide) for _ in range(n_multi)]
+    for mc in mtodo:
+        mobs = run_multilog_impl(mc, rep.workdir)
+        mcases.append((mc, mobs))
+        nh = len(mc["handlers"])
+        mdist["cases"] += 1
+        mdist["handlers"][nh] = mdist["handlers"].get(nh, 0) + 1
+        mdist["routes"][mc["route"]] = mdist["routes"].get(mc["route"], 0) + 1
+        mdist["files"] += nh
+        mdist["buffering_handlers"] += sum(1 for h in mc["handlers"] if h["buffered"])
+        recs_ev = [e for e in mc["events"] if e[0] == "rec"]
+        mdist["records"] += len(recs_ev)
+        last_close = max(i for i, e in enumerate(mc["events"]) if e[0] == "rec") if recs_ev else -1
+        mdist["mid_session_closes"] += sum(1 for i, e in enumerate(mc["events"]) if e[0] == "close" and i < last_close)
+        # a read for one handler directly followed by a record for (also) another one: the first still holds its reads
+        mdist["handovers_with_pending_reads"] += sum(1 for a, b in zip(recs_ev, recs_ev[1:]) if a[1]["kind"] in ("lazy_read", "eager_read")
+                                                     and (mc["route"] == "logger" or set(b[2]) - set(a[2])))
+        rep.case(("mlog", json.dumps(mc, sort_keys=True)), nontrivial=len(recs_ev) >= 2 and any(e[1]["kind"] in ("lazy_read", "eager_read") for e in recs_ev))
+        mranges.append((len(cases), nh))
+        for k in range(nh):
+            sub, sobs = multi_subcase(mc, k), multi_subobs(mobs, k)
+            multi_ix.add(len(cases))
+            cases.append((sub, sobs))
+            terms.append(log_case_term(sub, sobs, asctime))
+        bad_file = oracle_multilog(mc, mobs, asctime)
+        if bad_file:
+            mfails.append((len(mcases) - 1, bad_file))
+    rep.sample({"suite": "log-multi", "case": mcases[-1][0], "files": mcases[-1][1]["files"]})
     rep.sample({"suite": "log-seq", "case": cases[0][0], "file": cases[0][1]["file"]})
     if len(cases) > 20:
         rep.sample({"suite": "log-seq", "case": cases[20][0], "file": cases[20][1]["file"], "errors": cases[20][1]["errors"]})
     bad, log = common.eval_cases(rep.workdir, "cases_c20_log", LOG_HEADER, terms, "chk", shard=150)
     rep.coverage["correspondence"] = {"log-seq": {"cases": len(terms), "distribution": dist,
                                                   "model_disagreements": None if bad is None else len(bad), "oracle_failures": len(fails)}}
+    rep.coverage["correspondence"]["log-multi"] = {"cases": len(mcases), "distribution": mdist, "oracle_failures": len(mfails),
+                                                   "model_disagreements": None if bad is None else len([b for b in bad if b in multi_ix])}
+    seen_m = set()
+    for ix, (k, why) in mfails:
+        mc, _ = mcases[ix]
+        key = (mc["route"], why)
+        if key in seen_m or len(seen_m) >= 3:
+            continue
+        seen_m.add(key)
+        small = shrink_multilog(mc, rep.workdir, asctime)
+        sobs = run_multilog_impl(small, rep.workdir)
+        k2, why2 = oracle_multilog(small, sobs, asctime) or (k, why)
+        rep.violation("log files (%d handlers in one process, records %s): file %d (%s handler): %s" % (
+            len(small["handlers"]), "through the scrapli logger to all of them" if small["route"] == "logger" else "handed to the handlers listed with them",
+            k2, "buffering" if small["handlers"][k2]["buffered"] else "plain", why2),
+            {"suite": "log-multi", "case": small, "observed": sobs, "failing_file": k2,
+             "expected_regex": expected_log_regex(multi_subcase(small, k2), asctime), "rerun": "./check C20 --replay <this file>"})
+    # the files of a failing multi-handler case are not reported a second time as model disagreements
+    multi_failing = set(j for ix, _ in mfails for j in range(mranges[ix][0], mranges[ix][0] + mranges[ix][1]))
     seen_sig = set()
     for ix, why in fails:
         case, obs = cases[ix]
@@ -982,16 +1265,17 @@ def run(rep):
         rep.broken.append("correspondence log-seq (model evaluation failed)")
         rep.notes.append(log)
     elif bad:
-        failing = set(ix for ix, _ in fails)
+        failing = set(ix for ix, _ in fails) | multi_failing
         for ix in [b for b in bad if b not in failing][:3]:
             case, obs = cases[ix]
-            rep.broken.append("correspondence log-seq: model differs from implementation (%s)" % ("inside the property's domain" if case["domain"] else "malformed records"))
+            rep.broken.append("correspondence %s: model differs from implementation (%s)" % (
+                "log-multi (one file of several handlers)" if ix in multi_ix else "log-seq", "inside the property's domain" if case["domain"] else "malformed records"))
             mfile = common.eval_term(rep.workdir, "dis_c20_%d" % ix, "From Verif Require Import Bytes LogFormat LogHandler.",
                                      "let st := run_handler %s (fixed (mkFC %s true)) %s %s %s in (file st, errors st, escaped st)" % (
                                          coq_bool(case["buffered"]), coq_bool(case["caller"]), cps(case["existing"] or ""), coq_bool(case["append"]),
                                          coq_list([rec_term(r, asctime) for r in case["recs"]])))
             rep.notes.append("log-seq disagreement: case %s observed %s model %s" % (json.dumps(case)[:1500], json.dumps(obs)[:1500], mfile[-1500:]))
-        if not fails and any(b not in failing for b in bad):
+        if not fails and not mfails and any(b not in failing for b in bad):
             # search for a failing input of the property near the disagreements: sub-sequences, both handlers, both closes
             found = False
             for ix in bad[:5]:
@@ -1068,9 +1352,84 @@ def run(rep):
         mcase["existing"] = case["existing"] if (case["sink"] == "bytesio" or case["has_existing"]) else ""
         cterms.append(chan_case_term(mcase, obs))
     rep.sample({"suite": "driver", "case": dcases[0][0], "sink": dcases[0][1]["sink"], "events": dcases[0][1]["events"]})
+    # 3b''. commandeer : driver A opens and reads, driver B (same / different / no channel_log) commandeers it, both read, both close.
+    # The model (one log per connection: A's sink, every read of the connection whichever object made it) sees A's sink only.
+    n_cmd = 900 if thorough else 100
+    kcases, kfails, kterms = [], [], []
+    kdist = {"cases": 0, "combos": {}, "sink_pairs": {}, "same_destination": 0, "login_in_channel": 0, "on_open_b": 0, "reads_by": {}, "close_order": {},
+             "reads_before_commandeer": 0, "reads_after_commandeer": 0}
+    for i in range(n_cmd):
+        case = c20_driver.gen_cmd_case(rng, i, gen_chunk)
+        obs = c20_driver.run_cmd_impl(case, rep.workdir)
+        kcases.append((case, obs))
+        kdist["cases"] += 1
+        for key, val in (("combos", "%s/%s" % (case["stack"], case["transport"])), ("sink_pairs", "%s<-%s" % (case["sink_a"], case["sink_b"])),
+                         ("close_order", case["close"])):
+            kdist[key][val] = kdist[key].get(val, 0) + 1
+        kdist["same_destination"] += case["sink_a"] == case["sink_b"] != "none"
+        kdist["login_in_channel"] += bool(case["login"])
+        kdist["on_open_b"] += bool(case["on_open_b"]) and case["execute_on_open"]
+        after = False
+        for ev in obs["events"]:
+            after = after or ev[0] == "cmd-begin"
+            if ev[0] == "r":
+                kdist["reads_by"][ev[1]] = kdist["reads_by"].get(ev[1], 0) + 1
+                kdist["reads_after_commandeer" if after else "reads_before_commandeer"] += 1
+        rep.case(("cmd", json.dumps(case, sort_keys=True)),
+                 nontrivial=(case["sink_a"] != "none" or case["sink_b"] != "none") and len(set(ev[1] for ev in obs["events"] if ev[0] == "r")) == 2)
+        why = c20_driver.oracle_cmd(case, obs)
+        if why:
+            kfails.append((len(kcases) - 1, why))
+        mcase, mobs = c20_driver.cmd_model_case(case, obs)
+        cterms.append(chan_case_term(mcase, mobs))         # the connection-level model (ChanLog.sess_log): A's sink, every read
+        kterms.append(cmd_case_term(case, obs))            # the two-object model (Commandeer.cmd_run): A's and B's destinations
+    rep.sample({"suite": "commandeer", "case": kcases[0][0], "sinks": kcases[0][1]["sinks"], "events": kcases[0][1]["events"]})
     cbad, clog = common.eval_cases(rep.workdir, "cases_c20_chan", CHAN_HEADER, cterms, "chk")
-    dbad = None if cbad is None else [b - len(ccases) for b in cbad if b >= len(ccases)]
+    n_cd = len(ccases) + len(dcases)
+    kbad = None if cbad is None else [b - n_cd for b in cbad if b >= n_cd]
+    kbad2, klog = common.eval_cases(rep.workdir, "cases_c20_cmd", CMD_HEADER, kterms, "chk")
+    if kbad2 is None:
+        rep.broken.append("correspondence commandeer (model evaluation failed)")
+        rep.notes.append(klog)
+    elif kbad is not None:
+        kbad = sorted(set(kbad) | set(kbad2))
+    dbad = None if cbad is None else [b - len(ccases) for b in cbad if len(ccases) <= b < n_cd]
     cbad = None if cbad is None else [b for b in cbad if b < len(ccases)]
+    rep.coverage["correspondence"]["commandeer"] = {"cases": len(kcases), "distribution": kdist,
+                                                    "model_disagreements": None if kbad is None else len(kbad), "oracle_failures": len(kfails)}
+    seen_k = set()
+    for ix, why in kfails:
+        case, obs = kcases[ix]
+        key = (case["stack"], case["sink_a"] == case["sink_b"], re.sub(r"\d+", "N", why)[:30])
+        if key in seen_k or len(seen_k) >= 3:
+            continue
+        seen_k.add(key)
+        small, sobs, swhy = c20_driver.shrink_cmd(case, rep.workdir, why)
+        rep.violation("commandeered session (%s drivers, transport %s, channel_log of A: %s, of B: %s): %s" % (
+            small["stack"], small["transport"], small["sink_a"], small["sink_b"], swhy),
+            {"suite": "commandeer", "case": small, "observed": sobs, "expected": {k: (None if v is None else v.hex()) for k, v in c20_driver.cmd_expected(small, sobs).items()},
+             "rerun": "./check C20 --replay <this file>"})
+    kfailing = set(i for i, _ in kfails)
+    for ix in [b for b in (kbad or []) if b not in kfailing][:3]:
+        rep.broken.append("correspondence commandeer: model differs from implementation")
+        rep.notes.append("commandeer disagreement: %s %s" % (json.dumps(kcases[ix][0])[:800], json.dumps(kcases[ix][1])[:800]))
+    if kbad and not kfails:
+        # search for a failing input near the disagreements: the same session with both drivers pointed at ONE destination
+        found = False
+        for ix in kbad[:4]:
+            case, _ = kcases[ix]
+            for sink in ("path", "true", "bytesio"):
+                for app in (False, True):
+                    cand = dict(case, sink_a=sink, sink_b=sink, append_a=app, append_b=app, existing={k: v for k, v in case["existing"].items() if k == sink})
+                    o = c20_driver.run_cmd_impl(cand, rep.workdir)
+                    why = c20_driver.oracle_cmd(cand, o)
+                    if why and not found:
+                        found = True
+                        small, sobs, swhy = c20_driver.shrink_cmd(cand, rep.workdir, why)
+                        rep.violation("commandeered session (%s drivers, channel_log of A and B: %s): %s" % (small["stack"], sink, swhy),
+                                      {"suite": "commandeer", "case": small, "observed": sobs, "rerun": "./check C20 --replay <this file>"})
+            if found:
+                break
     rep.coverage["correspondence"]["driver"] = {"cases": len(dcases), "distribution": ddist,
                                                 "model_disagreements": None if dbad is None else len(dbad), "oracle_failures": len(dfails)}
     seen_d = set()
@@ -1167,8 +1526,20 @@ def run(rep):
                 "prompt + on_open + get_prompt / send_input / send_command / raw reads + close, also a device going silent inside the login and a refused login; "
                 "sinks path / True / BytesIO / off, write / append, previous content; oracle: sink after close == every byte served from the first byte of the "
                 "session, CRs removed; "
+                "commandeer: driver A opens (sometimes through an in-channel telnet login) and reads, driver B (base / generic; channel_log the same "
+                "destination as A's — same path, True on both, the same BytesIO —, a different one, or none; own write/append mode; optional on_open that "
+                "reads) commandeers A, both objects read further in any interleaving, both are closed in either order; sync and asyncio; observers: the "
+                "wire record tagged with the reading object and with WHICH configured destination is the open channel log of the reading channel at that "
+                "read, every channel.open(), every destination after both closes; oracle: each configured destination holds what it kept from before the "
+                "session (untouched / never created if nobody opened it) + exactly the reads it was the open log of, CRs removed, in order, once, and a "
+                "connection that had a channel log keeps one after the commandeering; "
+                "log-multi: 2-3 handler instances (own file, formatter, mode; buffering / plain) alive in one process, records either through the scrapli "
+                "logger to every attached handler (one shared record object) or handed to chosen handlers in interleaved runs, handlers closed in the middle "
+                "of the others' traffic and in every order, plus EVERY interleaving of length <= 3 (thorough: 4) of {read, info} x {handler 0, handler 1} "
+                "with both close orders; oracle and model per file = those of ONE handler on the records that handler was given; "
                 "session: channel + log file together. non-trivial = (log) >= 2 records with a read, (chan) a sink and a CR or ESC served, "
-                "(driver) a sink, a login in the channel and >= 2 reads, (session) >= 2 reads; distinct = the whole case")
+                "(driver) a sink, a login in the channel and >= 2 reads, (commandeer) a sink and reads through both objects, (log-multi) >= 2 records with a read, "
+                "(session) >= 2 reads; distinct = the whole case")
     shutil.rmtree(os.path.join(rep.workdir, "tmp"), ignore_errors=True)
 
 
@@ -1211,6 +1582,41 @@ def replay(path):
         print("results:", [(a, b if b in (None, "Starved") or a in ("open", "close") else "<bytes>") for a, b in obs["results"]])
         print("channel log after close:", None if obs["sink"] is None else bytes.fromhex(obs["sink"]))
         print("served (CRs removed)   :", bytes.fromhex(obs["served"]).replace(b"\r", b""))
+    elif suite == "log-multi":
+        asctime = _asctime()
+        obs = run_multilog_impl(case, wd)
+        bad_file = oracle_multilog(case, obs, asctime)
+        why = bad_file and "file %d: %s" % bad_file
+        print("%d handlers in one process; records %s" % (len(case["handlers"]), "go through the scrapli logger to every handler still attached"
+                                                          if case["route"] == "logger" else "are handed to the handlers listed with them"))
+        for ev in case["events"]:
+            if ev[0] == "close":
+                print("   close handler %d" % ev[1])
+            else:
+                print("   %r %% %r  extra=%r  -> handler(s) %s" % (ev[1]["msg"], _args(ev[1]), ev[1]["extra"], "all" if case["route"] == "logger" else ev[2]))
+        for k, hc in enumerate(case["handlers"]):
+            print("file %d (%s, mode %s, closed by %s):\n%s" % (k, "ScrapliFileHandler" if hc["buffered"] else "FileHandler",
+                                                               "append" if hc["append"] else "write", hc["close"], obs["files"][k] if k < len(obs["files"]) else ""))
+            w = oracle_log(multi_subcase(case, k), multi_subobs(obs, k), asctime)
+            print("   -> %s" % ("holds exactly the records handler %d was given" % k if w is None else "WRONG: " + w))
+        print("stderr errors: %d  escaped: %r" % (obs["errors"], obs["escaped"]))
+    elif suite == "commandeer":
+        obs = c20_driver.run_cmd_impl(case, wd)
+        why = c20_driver.oracle_cmd(case, obs)
+        print("%s drivers A (%s, channel_log %s, %s mode) and B (%s, channel_log %s, %s mode), transport %s; previous content %r" % (
+            case["stack"], case["driver_a"], case["sink_a"], "append" if case["append_a"] else "write", case["driver_b"], case["sink_b"],
+            "append" if case["append_b"] else "write", case["transport"], {k: bytes.fromhex(v) for k, v in case["existing"].items()}))
+        print("A.open(); %r through A; B.commandeer(A) (on_open of B: %r); %r; close %s" % (
+            [i["op"] for i in case["pre"]], [i["op"] for i in case["on_open_b"]] if case["execute_on_open"] else [],
+            [(i["who"], i["op"]) for i in case["post"]], " then ".join(case["close"])))
+        print("events (r = transport read: through which driver, bytes, which configured destination was the open channel log of the reading channel):")
+        for k, who, c, lab in obs["events"]:
+            print("   %-9s %s %r %s" % (k, who, bytes.fromhex(c), "" if k not in ("r", "open", "cmd", "left-open") else "-> %s" % lab))
+        print("results:", [(a, b if b in (None, "Starved") or a in ("open", "close", "commandeer") else "<bytes>") for a, b in obs["results"]])
+        want = c20_driver.cmd_expected(case, obs)
+        for dest in sorted(obs["sinks"]):
+            print("destination %-9s holds %r" % (dest, None if obs["sinks"][dest] is None else bytes.fromhex(obs["sinks"][dest])))
+            print("            should hold %r" % (want.get(dest),))
     elif suite == "session":
         obs = run_session_impl(case, wd)
         why = oracle_session(case, obs)
@@ -1247,7 +1653,14 @@ MANIFEST = {
             "AsyncDriver.open (telnet, system, asynctelnet; login in the channel; the model is fed the OBSERVED order of channel.open() and the reads) on the "
             "same generated inputs; independent oracles (CPython's own % and repr; literal_eval of the logged payloads against the scripted transport's "
             "wire record; channel-log sink after close == every byte served during the whole session, CRs removed; every written line's target column "
-            "is that of its own record's host/port/uid extras, for loggers sharing host:port and differing in uid).",
+            "is that of its own record's host/port/uid extras, for loggers sharing host:port and differing in uid). "
+            "Commandeered sessions (Driver.commandeer / AsyncDriver.commandeer: B takes A's transport and A's OPEN channel log object, B's own channel_log is "
+            "never opened): the connection-level model (whole_session_exact: A's sink, every read of the connection whichever object made it) is compared "
+            "with A's destination, and an independent oracle decides every configured destination (same / different / no channel_log on B; path, True, BytesIO) "
+            "from the wire record and the observed open log of the reading channel. Several handler instances in one process (2-3 files, interleaved and "
+            "broadcast record sequences, closes in the middle): every file is checked against the one-handler model and the one-handler oracle on the records "
+            "that handler was given. The translator discovers the handler's attribute names from emit / emit_buffered (the prefix the message is tested "
+            "against, the cut of the payload, the attributes they write, the f-string assigned to .msg) instead of assuming them.",
     "note": "Proved of the hand-written Gallina models (LogHandler.v, LogFormat.v, ChanLog.v); the models are tied to the code by the correspondence run and the "
             "regenerated obligations only (partial: the runtime is observed on generated cases, not proved). Modelled rather than verified: logging.LogRecord.getMessage "
             "(%r %s %% only; other conversions are modelled as raising), bytes/str repr (str repr exact below code point 256), str.encode, StreamHandler.emit/handleError, "
@@ -1258,7 +1671,15 @@ MANIFEST = {
             "written) — the session model has only the events channel.open() / read, the driver suite observes their order and the ast fact fixes it in the "
             "source; the transports' own open/read/write/close are replaced by a script (asyncio sessions run on a virtual-time event loop so that the "
             "login loop's sleep(0.1) costs nothing); attribution of a log line to its logger is decided by the oracle on the file (the formatter model is "
-            "a pure function of the record's extras, so a formatter with memory is reported by the correspondence as well).",
+            "a pure function of the record's extras, so a formatter with memory is reported by the correspondence as well). "
+            "Oracle-only as well: commandeer itself — the Coq model has one log per connection and no notion of two driver objects; which object's sink is "
+            "the open log of a read is OBSERVED (channel.channel_log of the reading channel mapped to the configured destinations), that B's own destination "
+            "stays untouched / uncreated and that nothing written before the commandeering is lost are decided by the oracle on the files / BytesIO values "
+            "after both closes; handles left open after both closes are closed by the harness before the files are read. Independence of handler instances "
+            "is by construction in the model (its state is per handler): the log-multi suite ties it to the code by running the one-handler model per file; "
+            "state shared between instances shows as a per-file disagreement and oracle failure. In the logger-routed log-multi cases the records carry host "
+            "and port: a record without host is completed (host = port = '') by the first ScrapliFormatter that formats it, so a second handler's formatter "
+            "shows ':' in the target column where the first showed '' (layout, outside the property; seen on the unchanged tree).",
     "technique": "Coq proof by induction over the record sequence with a ghost pending-group invariant (left-to-right handler vs right-fold partition), by-computation "
                  "obligations over regenerated definitions, vm_compute correspondence against the real handlers/formatter/channels (sync + asyncio) with independent oracles",
 }
